@@ -51,7 +51,9 @@ func (s *Sender) Run(ctx context.Context) {
 			for {
 				if stream == nil {
 					sink = s.Sink
+					streamCancel = nil
 				} else {
+					sink = nil
 					streamCancel = stream.Ctx.Done()
 				}
 				select {
